@@ -800,7 +800,8 @@ class Gen:
         mid-session; completion / resolve and every other request kind in between."""
         r = self.r
         files = {}
-        root_toml = gen_toml(r) if r.random() < 0.8 else None
+        root_toml = (gen_toml(r, r.choice(["pascal", "upper_camel"]) if r.random() < 0.35 else None)
+                     if r.random() < 0.8 else None)
         files["vhdl_ls.toml"] = root_toml
         if r.random() < 0.4:
             files["sub/vhdl_ls.toml"] = gen_toml(r)
@@ -1397,9 +1398,23 @@ def main(tier, replay=None):
         sessions.append({"tag": "replay", "messages": rp["messages"], "mode": rp.get("mode", "step"),
                          "caps": rp.get("caps", 0)})
     else:
+        open_findings = {e.get("match", {}).get("mechanism"): e for e in known_findings(PROP)
+                         if isinstance(e.get("match"), dict) and e["match"].get("mechanism")}
+        pending = []
         for k, c in enumerate([] if os.environ.get("VERIF_C15_NO_CORPUS") else load_corpus()):   # (development aid)
-            sessions.append({"tag": "corpus:%s" % c.get("name", k), "messages": c["messages"], "mode": "step",
-                             "caps": c.get("caps", 0)})
+            sess = {"tag": "corpus:%s" % c.get("name", k), "messages": c["messages"], "mode": "step",
+                    "caps": c.get("caps", 0)}
+            mech = c.get("requires_finding")
+            if mech:
+                # input of a defect reported to the coordinator: it is run once known_findings.json has an entry for
+                # it (open: KNOWN-FINDING when it reproduces; fixed: an ordinary corpus session)
+                if mech not in open_findings:
+                    pending.append(c.get("name"))
+                    continue
+                if open_findings[mech].get("kind") == "open":
+                    sess["finding"] = open_findings[mech]
+            sessions.append(sess)
+        res.coverage["finding_probes_waiting_for_known_findings_entry"] = pending
         n_sessions, n_msgs = (2400, 40) if tier == "thorough" else (150, 40)
         for k in range(n_sessions):
             g = Gen(seed() * 1000003 + k)
@@ -1472,6 +1487,11 @@ def main(tier, replay=None):
                 continue
             sink = Sink()
             if judge(sink, s["tag"], s, models[i], out):
+                clean += 1
+            if s.get("finding") and sink.items:
+                e = s["finding"]
+                res.known_finding("%s %s [%s]" % (e.get("id"), e.get("open", ""), sink.items[0][0][:200]))
+                sink.items = []
                 clean += 1
             for what, replay_obj, nf in sink.items:
                 cls = re.split(r"[:(]", what)[0][:60] + ("/" + what.split("exit status")[1][:12] if "exit status" in what else "")
